@@ -19,6 +19,10 @@ pub struct LibCase {
     pub calls: u32,
     pub entropy: Vec<EntResp>,
     pub sched: SchedSpec,
+    /// run as real threads (`libprobe`) under the preload shim's scheduler (engine E3)
+    /// instead of shuttle tasks in the E2 executor
+    #[serde(default)]
+    pub e3: bool,
 }
 
 impl LibCase {
@@ -28,10 +32,25 @@ impl LibCase {
             rep.probe(p, false);
         }
         let requests = (self.tasks * self.calls) as usize;
+        if !self.e3 && crate::exec::E2_UNUSABLE.load(std::sync::atomic::Ordering::Relaxed) >= 3 {
+            let mut c = self.clone();
+            c.e3 = true;
+            if c.sched.policy == "trace" || c.sched.policy == "pct" {
+                c.sched = SchedSpec { policy: "random".into(), seed: c.sched.seed, param: 0, horizon: 64, trace: vec![] };
+            }
+            return c.run(ctx, dir);
+        }
+        rep.probe("lib_scenario_on_real_threads_e3", self.e3);
         let cmd = Cmd {
-            argv: vec!["new".into()],
+            argv: if self.e3 {
+                vec![self.tasks.to_string(), self.length.to_string(), self.calls.to_string()]
+            } else {
+                vec!["new".into()]
+            },
             entropy: self.entropy.clone(),
             tail: None,
+            e3: self.e3,
+            libprobe: self.e3,
             e2: Some(E2Params {
                 sched: self.sched.clone(),
                 max_steps: (200 + 40 * (requests + self.tasks as usize)) as u32,
@@ -50,9 +69,40 @@ impl LibCase {
             .entropy
             .iter()
             .any(|r| matches!(r, EntResp::Fail { .. }));
+        if !self.e3 && o.status == Status::Timeout {
+            // the library holds a real std lock across the entropy call: shuttle cannot model that,
+            // the shim's scheduler (real threads, futex-level blocking) can
+            let mut c = self.clone();
+            c.e3 = true;
+            if c.sched.policy == "trace" || c.sched.policy == "pct" {
+                c.sched = SchedSpec { policy: "random".into(), seed: c.sched.seed, param: 0, horizon: 64, trace: vec![] };
+            }
+            let mut r = c.run(ctx, dir)?;
+            crate::exec::E2_UNUSABLE.fetch_add(1, std::sync::atomic::Ordering::Relaxed);
+            r.probe("lib_e2_stalled_real_threads_verdict_used", true);
+            return Ok(r);
+        }
+        let mut o = o;
+        if self.e3 {
+            // the probe prints its results; turn them into the history's lib_results
+            let text = o.stdout_str();
+            if let Some(h) = o.e2.as_mut() {
+                for line in text.lines() {
+                    let f: Vec<&str> = line.splitn(4, ' ').collect();
+                    if f.len() == 4 && (f[2] == "ok" || f[2] == "err") {
+                        h.lib_results.push(LibResult {
+                            task: f[0].parse().unwrap_or(0),
+                            call: f[1].parse().unwrap_or(0),
+                            ok: f[2] == "ok",
+                            text: f[3].to_string(),
+                        });
+                    }
+                }
+            }
+        }
         let Some(h) = &o.e2 else {
             if o.status == Status::Timeout {
-                return Err(HarnessError("library scenario did not finish: a blocking primitive the simulator does not control is held across a scheduling point".into()));
+                return Err(HarnessError("library scenario did not finish".into()));
             }
             return Err(HarnessError(format!(
                 "library scenario left no history: {:?}",
@@ -60,6 +110,7 @@ impl LibCase {
             )));
         };
         rep.sched_steps = h.steps as u64;
+        let eng = if self.e3 { "E3" } else { "E2" };
         let label = format!(
             "{} tasks x {} x Mnemonic::random(English, {})",
             self.tasks, self.calls, self.length
@@ -70,7 +121,7 @@ impl LibCase {
                 "panic",
                 panic_fingerprint(&p.loc, &p.msg),
                 format!(
-                    "[E2 lib] {label}: task {} panicked at {}: {}",
+                    "[{eng} lib] {label}: task {} panicked at {}: {}",
                     p.task, p.loc, p.msg
                 ),
             );
@@ -80,7 +131,7 @@ impl LibCase {
                 "C17",
                 "hang",
                 format!("lib|{}", h.end),
-                format!("[E2 lib] {label}: ended with {} {}", h.end, h.detail),
+                format!("[{eng} lib] {label}: ended with {} {}", h.end, h.detail),
             );
         }
         let ent_len = rm::entropy_len(self.length as usize);
@@ -108,7 +159,7 @@ impl LibCase {
             match ent_len {
                 None => {
                     if !evs.is_empty() || res.iter().any(|r| r.ok) {
-                        rep.violate("C12", "unsupported-length-accepted", "lib|len", format!("[E2 lib] {label}: task {t} got a phrase or drew entropy for an unsupported length"));
+                        rep.violate("C12", "unsupported-length-accepted", "lib|len", format!("[{eng} lib] {label}: task {t} got a phrase or drew entropy for an unsupported length"));
                     }
                 }
                 Some(el) => {
@@ -117,7 +168,7 @@ impl LibCase {
                             "C12",
                             "request-count",
                             "lib|requests",
-                            format!("[E2 lib] {label}: task {t} made {} entropy requests for {} generations", evs.len(), res.len()),
+                            format!("[{eng} lib] {label}: task {t} made {} entropy requests for {} generations", evs.len(), res.len()),
                         );
                         continue;
                     }
@@ -128,7 +179,7 @@ impl LibCase {
                                 "request-size",
                                 "lib|reqlen",
                                 format!(
-                                    "[E2 lib] {label}: task {t} requested {} bytes, ENT is {el}",
+                                    "[{eng} lib] {label}: task {t} requested {} bytes, ENT is {el}",
                                     ev.len
                                 ),
                             );
@@ -151,7 +202,7 @@ impl LibCase {
                                     "entropy-not-from-own-request",
                                     "lib|crossed",
                                     format!(
-                                        "[E2 lib] {label}: task {t} call {} was delivered {} but returned {:?} (ok={}){}",
+                                        "[{eng} lib] {label}: task {t} call {} was delivered {} but returned {:?} (ok={}){}",
                                         r.call,
                                         ev.bytes,
                                         r.text.chars().take(120).collect::<String>(),
@@ -165,7 +216,7 @@ impl LibCase {
                                 "C12",
                                 "entropy-failure-ignored",
                                 "lib|failure",
-                                format!("[E2 lib] {label}: task {t} call {}: the source failed (errno {}) yet a phrase was returned: {:?}", r.call, ev.errno, r.text.chars().take(120).collect::<String>()),
+                                format!("[{eng} lib] {label}: task {t} call {}: the source failed (errno {}) yet a phrase was returned: {:?}", r.call, ev.errno, r.text.chars().take(120).collect::<String>()),
                             );
                         }
                     }
@@ -296,11 +347,14 @@ pub fn gen_lib_case(rng: &mut Rng) -> LibCase {
         };
     }
     let sched = super::newcase::gen_sched(rng, tasks as usize, n);
+    // one library scenario in three runs on real threads under the shim's scheduler
+    let e3 = rng.chance(1, 3);
     LibCase {
         tasks,
         length,
         calls,
         entropy,
         sched,
+        e3,
     }
 }
